@@ -340,6 +340,11 @@ func (d *tDecoder) decodeType(t *tType, b []byte, p unsafe.Pointer, maxdepth int
 				}
 			}
 			tmp = vp
+			if vt.T == tSTRUCT && !vt.IsPointer {
+				// the tmp var is reused by all entries and all calls,
+				// fields not in the message must not keep the previous values
+				v.SetZero()
+			}
 			if vt.IsPointer { // tmp = &sliceV[j]
 				if j != 0 { // next
 					sliceV = unsafe.Add(sliceV, vt.V.Size)
